@@ -30,7 +30,15 @@ func (s *Service) scoreBeaconBlockProposal(_ context.Context,
 		return 0
 	}
 
-	score, _ := new(big.Int).Add(blockProposal.ConsensusValue, blockProposal.ExecutionValue).Float64()
+	// Either value may be absent, in which case it counts as 0.
+	value := new(big.Int)
+	if blockProposal.ConsensusValue != nil {
+		value.Add(value, blockProposal.ConsensusValue)
+	}
+	if blockProposal.ExecutionValue != nil {
+		value.Add(value, blockProposal.ExecutionValue)
+	}
+	score, _ := value.Float64()
 
 	s.log.Trace().
 		Str("name", name).
